@@ -300,8 +300,9 @@ func parserResponseCookie(c *Client, resp *Response, req *Request) error {
 		return err
 	}
 
-	// Store cookies in the cookie jar if available.
-	if c.cookieJar != nil {
+	// Store cookies in the cookie jar if available (after redirects they are there already, filed under the
+	// host of each hop - the final answer need not come from the host of the request).
+	if c.cookieJar != nil && !resp.cookiesInJar {
 		c.cookieJar.parseCookiesFromResp(req.RawRequest.URI().Host(), req.RawRequest.URI().Path(), resp.RawResponse)
 	}
 
